@@ -585,6 +585,11 @@ func (s *Server) cmdEvalUnified(scriptIsSha bool, msg *Message) (res resp.Value,
 
 	switch msg.OutputType {
 	case JSON:
+		if r := ConvertToRESP(ret); r.Type() == resp.Error {
+			// an error result (tile38.error_reply, {err=...}) is an error
+			// reply in RESP mode: not "ok" here either
+			return NOMessage, errors.New(strings.TrimPrefix(r.String(), "ERR "))
+		}
 		var buf bytes.Buffer
 		buf.WriteString(`{"ok":true`)
 		buf.WriteString(`,"result":` + ConvertToJSON(ret))
